@@ -7,7 +7,7 @@
    tool level is stated on the bytes of the BED file and of the output file. *)
 From Coq Require Import QArith.
 From BT Require Import Base.Util Base.Float Model.RTree Model.BBIFile Model.BigWigWrite Model.BBIRead
-  Model.BedStats Proofs.Chunks Proofs.BigWigQuery Proofs.BedStatsThms Proofs.BedStatsFloat Proofs.BedStatsRows Proofs.BedStatsNames Proofs.BedStatsValues.
+  Model.BedStats Proofs.Chunks Proofs.BigWigQuery Proofs.BedStatsThms Proofs.BedStatsFloat Proofs.BedStatsRows Proofs.BedStatsNames Proofs.BedStatsValues Proofs.BedStatsPerBase.
 Local Open Scope N_scope.
 
 (* size = e - s, bases = sum of the clipped lengths, sum = the code's accumulation over exactly the clipped
@@ -99,3 +99,11 @@ Theorem C17_values_over_bed_last : forall s e vals, s <= e ->
     Some (match find (covers (s + N.of_nat i)) (rev vals) with Some v => v_bits v | None => 0 end).
 Proof. exact values_spec_last. Qed.
 Print Assumptions C17_values_over_bed_last.
+
+(* base by base: bases = the number of bases of the region covered by a stored value; the exact sum = the
+   sum over the region's bases of the value stored at the base (0 where there is none) *)
+Theorem C17_stats_per_base : forall len s e vals, wf_vals len vals -> s <= e -> all_finite (clip_filter s e vals) ->
+  bases_of (clip_filter s e vals) = N.of_nat (covered_count vals s e) /\
+  (fl_Q (sum_of exact (clip_filter s e vals)) == sum_over (base_val vals) (region_bases s e))%Q.
+Proof. exact stats_per_base. Qed.
+Print Assumptions C17_stats_per_base.
